@@ -89,7 +89,7 @@ def gen_case(rng, idx):
         for _ in range(rng.choice([0, 0, 1, 2, 4, 8, 12])):
             src = rng.choice(ids)
             sinks = [rng.choice(ids) for _ in range(rng.randint(0, 4))]
-            nets.append([src, sinks, rng.choice([1, 1, 1, 2, 0.5, 0, 3.0])])
+            nets.append([src, sinks, rng.choice([1, 1, 1, 2, 0.5, 0, 3.0, 1, 1, -1, -2.5, "nan"])])
     # constraints: same-chip groups first (union-find), then locations consistent with the groups
     cons = []
     parent = {v: v for v in ids}
@@ -174,8 +174,11 @@ def gen_case(rng, idx):
         if rng.random() < 0.5:
             outside.append([-1, 0])
     reskind = rng.choice(["int"] * 5 + ["identity", "identity", "value", "str"])
+    vkind = rng.choice(["int"] * 4 + ["tuple", "tuple", "frozenset", "str"])
+    scalar_sinks = rng.random() < 0.5
     return dict(machine=dict(w=w, h=h, res=caps, exc=exc, dead=[list(c) for c in dead] + outside, dead_links=dead_links),
-                vres=vres, nets=nets, constraints=cons, vorder=vorder, corder=corder, reskind=reskind,
+                vres=vres, nets=nets, constraints=cons, vorder=vorder, corder=corder, reskind=reskind, vkind=vkind,
+                scalar_sinks=scalar_sinks,
                 effort=rng.choice([0, 0.1, 1]), seed=rng.randrange(1 << 30), mode=mode, idx=idx,
                 sa_steps=rng.choice([0, 50, 100, 300]),
                 reuse=[rng.choice(REUSE_CFGS) for _ in range(3)])
